@@ -1,11 +1,160 @@
-(** Property C11 -- Regular expressions match exactly the language their syntax defines. *)
-From XV Require Import C11.Spec11 C11.ModelRange11 C11.Model11.
+(** Property C11 -- Regular expressions match exactly the language their syntax defines.
+    Only the property theorems: each is closed by [exact] of a lemma of Proofs11*.v (or by [vm_compute] on a literal
+    witness) and followed by [Print Assumptions].  Spec: Spec11.v.  Models: ModelRange11.v (RangeToken), Model11.v
+    (ParserForXMLSchema, compile, match; the \s \d \w \i \c sets come from Gen/GenC11.v, regenerated on every run).
+
+    Not proved here (checked by the correspondence and the extracted oracle only): soundness of the matcher as it
+    stands (T11_match_sound of the design), the set semantics of subtractRanges / intersectRanges / complementRanges,
+    the parser round trip, pre-filters, tokenize/replace. *)
+From Coq Require Import Arith PeanoNat.
+From XV Require Import C11.Spec11 C11.ModelRange11 C11.Model11 C11.Proofs11a C11.Proofs11b C11.Proofs11c.
 Local Open Scope N_scope.
 
-Definition w_ab_opt : tok := TConcat [TClosure 0 None (TChar 97); TUnion [TParen (TString [97; 98]); TEmpty]].
+(* ---------------------------------------------------------------------------------------------- *)
+(** * the specification's matcher (the oracle of the correspondence) decides the denotational language *)
+Theorem T11_spec_matcher : forall r s, dmatch_re r s = true <-> Lre r s.
+Proof. exact dmatch_re_spec. Qed.
+Print Assumptions T11_spec_matcher.
 
-(** F15: completeness of the matcher as it stands is refuted *)
+(** * quantifiers: n copies followed by m-n nested options (resp. a star) denote the n..m-fold (resp. >= n-fold) power *)
+Theorem T11_quantifier : forall a n m s, (n <= m)%nat ->
+  (Lc (KCat (kpow (core a) n) (kopt (core a) (m - n))) s <->
+   exists ss, s = concat ss /\ Forall (Lre a) ss /\ (n <= length ss)%nat /\ (length ss <= m)%nat).
+Proof. exact quant_expand_bounded. Qed.
+Print Assumptions T11_quantifier.
+
+Theorem T11_quantifier_unbounded : forall a n s,
+  (Lc (KCat (kpow (core a) n) (KStar (core a))) s <-> exists ss, s = concat ss /\ Forall (Lre a) ss /\ (n <= length ss)%nat).
+Proof. exact quant_expand_unbounded. Qed.
+Print Assumptions T11_quantifier_unbounded.
+
+Example T11_quantifier_nonvacuous : dmatch_re (RRep 2 (Some 3%nat) (RChar 97)) [97; 97; 97] = true /\
+                                    dmatch_re (RRep 2 (Some 3%nat) (RChar 97)) [97] = false /\
+                                    dmatch_re (RRep 2 (Some 3%nat) (RChar 97)) [97; 97; 97; 97] = false.
+Proof. vm_compute. repeat split. Qed.
+
+(* ---------------------------------------------------------------------------------------------- *)
+(** * range algebra (T11_range_algebra, partial: sort, compact, merge, repaired addRange, match, array bounds) *)
+Theorem T11_range_sort : forall l c, rmem (rsort l) c = rmem l c /\ sorted_ok (rsort l) = true.
+Proof. intros l c. split; [apply rmem_rsort | apply sorted_rsort]. Qed.
+Print Assumptions T11_range_sort.
+
+(** compactRanges keeps the set and yields strictly increasing, disjoint, non-adjacent ranges *)
+Theorem T11_range_compact : forall l c, lo_sorted 0 l = true ->
+  rmem (compact_list l) c = rmem l c /\ compact_ok (compact_list l) = true.
+Proof. exact compact_list_spec. Qed.
+Print Assumptions T11_range_compact.
+
+Example T11_range_compact_nonvacuous :
+  lo_sorted 0 [(1, 3); (2, 5); (6, 6); (9, 12)] = true /\ compact_list [(1, 3); (2, 5); (6, 6); (9, 12)] = [(1, 6); (9, 12)].
+Proof. vm_compute. split; reflexivity. Qed.
+
+Theorem T11_range_merge : forall t o c, rt_wf t -> rt_wf o ->
+  rmem (rs (mergeRanges t o)) c = rmem (rs t) c || rmem (rs o) c.
+Proof. exact mergeRanges_spec. Qed.
+Print Assumptions T11_range_merge.
+
+(** addRange with fixes/C11-addrange-overlap.patch denotes the union with the (normalised) interval *)
+Theorem T11_range_add : forall t a b c, rt_wf t ->
+  rmem (rs (addRange true t a b)) c = rmem (rs t) c || interval a b c.
+Proof. exact addRange_fixed_spec. Qed.
+Print Assumptions T11_range_add.
+
+Example T11_range_add_nonvacuous : rt_wf (addRange true rt_new 1 5) /\ rs (addRange true (addRange true rt_new 1 5) 3 9) = [(1, 5); (3, 9)].
+Proof. split; [| vm_compute; reflexivity]. unfold rt_wf. vm_compute. repeat split; discriminate. Qed.
+
+(** F26: addRange as it stands loses an interval *)
+Theorem T11_addRange_drop_refuted :
+  exists t a b c, rt_wf t /\ interval a b c = true /\ rmem (rs (addRange false t a b)) c = false.
+Proof.
+  exists (addRange false rt_new 1 5), 3, 9, 7. split; [| split; vm_compute; reflexivity].
+  unfold rt_wf. vm_compute. repeat split; discriminate.
+Qed.
+Print Assumptions T11_addRange_drop_refuted.
+
+(** RangeToken::match (bitmap below 256, scan above) is membership, negated for T_NRANGE *)
+Theorem T11_range_match : forall neg l c, compact_ok l = true -> rt_match neg l c = xorb neg (rmem l c).
+Proof. exact rt_match_spec. Qed.
+Print Assumptions T11_range_match.
+
+(** index safety: fElemCount never exceeds the fMaxCount the C++ computes (used by C01) *)
+Theorem T11_range_cap_add : forall fx t a b, cap_ok t -> (2 <= maxc t)%nat -> cap_ok (addRange fx t a b).
+Proof. exact addRange_cap. Qed.
+Print Assumptions T11_range_cap_add.
+
+Theorem T11_range_cap_merge : forall t o, cap_ok t -> cap_ok o -> cap_ok (mergeRanges t o).
+Proof. exact mergeRanges_cap. Qed.
+Print Assumptions T11_range_cap_merge.
+
+(* ---------------------------------------------------------------------------------------------- *)
+(** * the multi-character escapes read back from the library: ordering and ASCII part *)
+Definition named_sets : list (N * list rng * list rng) :=
+  [(115, named_lc_s, named_uc_s); (100, named_lc_d, named_uc_d); (119, named_lc_w, named_uc_w);
+   (105, named_lc_i, named_uc_i); (99, named_lc_c, named_uc_c)].
+
+Definition named_ok (x : N * list rng * list rng) : bool :=
+  let '(k, lc, uc) := x in
+  compact_ok lc && compact_ok uc &&
+  forallb (fun c => Bool.eqb (rmem lc c) (named_ascii k c) && Bool.eqb (rmem uc c) (negb (named_ascii k c))) (nrange 128).
+
+Theorem T11_named_ascii : forall k lc uc c, In (k, lc, uc) named_sets -> c < 128 ->
+  compact_ok lc = true /\ compact_ok uc = true /\ rmem lc c = named_ascii k c /\ rmem uc c = negb (named_ascii k c).
+Proof.
+  intros k lc uc c Hin Hc.
+  assert (A : forallb named_ok named_sets = true) by (vm_compute; reflexivity).
+  rewrite forallb_forall in A. specialize (A _ Hin). unfold named_ok in A.
+  apply andb_true_iff in A. destruct A as [A S]. apply andb_true_iff in A. destruct A as [A1 A2].
+  rewrite forallb_forall in S. specialize (S c (nrange_in 128 c Hc)).
+  apply andb_true_iff in S. destruct S as [S1 S2]. apply Bool.eqb_prop in S1. apply Bool.eqb_prop in S2. auto.
+Qed.
+Print Assumptions T11_named_ascii.
+
+(* ---------------------------------------------------------------------------------------------- *)
+(** * the matcher *)
+(** the repaired matcher (defect switch of F15/F27/F28) accepts exactly the language of the token tree *)
+Theorem T11_fixed_correct : forall fxd s t, xmatch_fixed_tok fxd s t = true <-> Lre (re_of_tok fxd t) s.
+Proof. exact xmatch_fixed_correct. Qed.
+Print Assumptions T11_fixed_correct.
+
+Definition t_a_star_ab_opt : tok := TConcat [TClosure 0 None (TChar 97); TUnion [TParen (TConcat [TString [97; 98]]); TEmpty]].
+Definition t_alt_star : tok := TClosure 0 None (TParen (TUnion [TConcat [TString [97; 98]]; TChar 97; TConcat [TString [98; 98]]])).
+
+Example T11_parse_witness : parse sw_faithful [97; 42; 40; 97; 98; 41; 63] = Ok t_a_star_ab_opt.
+Proof. vm_compute. reflexivity. Qed.
+
+(** F15: completeness of the matcher as it stands is refuted: a*(ab)? rejects "ab" and "aab", (ab|a|bb)* rejects "abb" *)
 Theorem T11_match_complete_refuted :
-  exists t s, dmatch_re (re_of_tok false t) s = true /\ xmatch_tok sw_faithful 100 t s = XFalse.
-Proof. exists w_ab_opt, [97; 98]. split; vm_compute; reflexivity. Qed.
+  exists t s, Lre (re_of_tok false t) s /\ xmatch_tok sw_faithful 200 t s = XFalse.
+Proof.
+  exists t_a_star_ab_opt, [97; 98]. split; [| vm_compute; reflexivity].
+  apply T11_fixed_correct. vm_compute. reflexivity.
+Qed.
 Print Assumptions T11_match_complete_refuted.
+
+Example T11_match_complete_refuted_2 :
+  xmatch_tok sw_faithful 200 t_a_star_ab_opt [97; 97; 98] = XFalse /\ xmatch_fixed_tok false [97; 97; 98] t_a_star_ab_opt = true /\
+  xmatch_tok sw_faithful 200 t_alt_star [97; 98; 98] = XFalse /\ xmatch_fixed_tok false [97; 98; 98] t_alt_star = true /\
+  xmatch_tok sw_faithful 200 t_a_star_ab_opt [97; 97] = XTrue.
+Proof. vm_compute. repeat split. Qed.
+
+(** F27: [b]*[^a] rejects "bb" because doTokenOverlap intersects the negated class as if it were positive;
+    with the repaired overlap test the same matcher accepts *)
+Definition t_overlap : tok := TConcat [TClosure 0 None (TRange false [(98, 98)]); TRange true [(97, 97)]].
+Example T11_overlap_refuted :
+  xmatch_tok sw_faithful 200 t_overlap [98; 98] = XFalse /\ xmatch_tok (mkSw false true false) 200 t_overlap [98; 98] = XTrue /\
+  xmatch_fixed_tok false [98; 98] t_overlap = true.
+Proof. vm_compute. repeat split. Qed.
+
+(** F28: the nested closure ( a* )* followed by b, on the subject "a": the recursion of match never ends (here: more than 3000 nested calls on a one-character
+    subject; the implementation overflows its stack) *)
+Definition t_nested : tok := TConcat [TClosure 0 None (TParen (TClosure 0 None (TChar 97))); TChar 98].
+Example T11_match_diverges_witness :
+  xmatch_tok sw_faithful 3000 t_nested [97] = XDiverge /\ xmatch_fixed_tok false [97] t_nested = false /\
+  xmatch_tok sw_faithful 200 t_nested [97; 98] = XTrue.
+Proof. vm_compute. repeat split. Qed.
+
+(** F29: '.' rejects U+2028 and U+1000A *)
+Example T11_dot_refuted :
+  xmatch_tok sw_faithful 50 TDot [0x2028] = XFalse /\ xmatch_tok sw_faithful 50 TDot [0x1000A] = XFalse /\
+  xmatch_tok (mkSw false false true) 50 TDot [0x1000A] = XTrue /\ xmatch_tok sw_faithful 50 TDot [10] = XFalse.
+Proof. vm_compute. repeat split. Qed.
